@@ -247,6 +247,8 @@ class ReadableStream(io.RawIOBase):
         self.sdo_client = sdo_client
         self._toggle = 0
         self.pos = 0
+        # Data already received that did not fit into the buffer given to readinto()
+        self._spare = b""
 
         logger.debug("Reading 0x%04X:%02X from node %d", index, subindex,
                      sdo_client.rx_cobid - 0x600)
@@ -290,13 +292,16 @@ class ReadableStream(io.RawIOBase):
         :returns: 1 - 7 bytes of data or no bytes if EOF.
         :rtype: bytes
         """
+        if size is None or size < 0:
+            return self.readall()
+        if self._spare:
+            data, self._spare = self._spare, b""
+            return data
         if self._done:
             return b""
         if self.exp_data is not None:
             self._done = True
             return self.exp_data
-        if size is None or size < 0:
-            return self.readall()
 
         command = REQUEST_SEGMENT_UPLOAD
         command |= self._toggle
@@ -321,6 +326,9 @@ class ReadableStream(io.RawIOBase):
         and return the number of bytes read.
         """
         data = self.read(7)
+        # A segment can hold more than the buffer takes: keep the rest for the next call
+        self._spare = data[len(b):]
+        data = data[:len(b)]
         b[:len(data)] = data
         return len(data)
 
